@@ -102,7 +102,7 @@ impl Prop for C11 {
             drain_sz(),
         )
             .prop_map(|(spec, gens, in_pages, out_pages, schedule, drain_feed, drain_free)| {
-                C11Case::Block(DripCase { spec, gens, tag_every: 0, in_pages, out_pages, schedule, drain_feed, drain_free })
+                C11Case::Block(DripCase { spec, gens, tag_every: 0, in_pages, out_pages, schedule, drain_feed, drain_free, close_early: false })
             });
         let kernel = (tapspec_strategy(200), finite_gen(2000), 1u8..9).prop_map(|(taps, input, deci)| C11Case::Kernel { taps, input, deci });
         let iir = (
@@ -137,7 +137,7 @@ impl Prop for C11 {
     }
     fn rule(&self) -> String {
         format!(
-            "generated: FirFilter<f32|Complex> (1-200 taps: random, windowed-sinc, impulse, moving average; decimation 1-8), FftFilter, FftFilterFloat, Hilbert, SinglePoleIirFilter, QuadratureDemod, FastFM under drip schedules (all chunkings), Fir::filter/filter_n/filter_float on identical data, IirFilter::filter/filter_clamped, low_pass/low_pass_complex x 4 window types; inputs random/impulse/step/sinusoid, finite, |x| <= 1e3, length 0..6k (thorough 20k). Oracle: f64 reference computations of the defining formulas (FIR block output k = sum taps[j] x[k*deci+ntaps-1-j]; FFT filter y[k] = sum taps[j] x[k-j] with zero pre-history, hence FIR[k] == FFT[k+ntaps-1]; float variant = real part; IIR recurrences with a running rounding-error bound; QuadDemod = gain*arg(s*conj(prev)), with 0 or +-gain*pi where the product is exactly zero (gated inputs); FastFM's difference formula bit-exactly; Hilbert = (delayed input, FIR of the Hilbert taps); low_pass taps symmetric with unit DC gain). Stated tolerance, not tuned per case: |err| <= 64*eps32*sum|t|*max|x| for direct forms, <= 16*eps32*log2(fft_size)*sum|t|*max|x| + 1e-30 for FFT paths; exact output counts. Build variant: {} (the thorough tier also runs a build with -C target-feature=+avx,+sse3 so that the AVX dot product is the one under test). Non-trivial: >= 2 taps and input longer than one FFT block / FIR window with a chunk boundary inside (drip run with > 3 work calls); distinct = hash of the case.",
+            "generated: FirFilter<f32|Complex> (1-200 taps: random, windowed-sinc, impulse, moving average; decimation 1-8), FftFilter, FftFilterFloat, Hilbert, SinglePoleIirFilter, QuadratureDemod, FastFM under drip schedules (all chunkings), Fir::filter/filter_n/filter_float on identical data, IirFilter::filter/filter_clamped, low_pass/low_pass_complex x 4 window types; inputs random/impulse/step/sinusoid, finite, |x| <= 1e3, length 0..6k (thorough 20k). Oracle: f64 reference computations of the defining formulas (FIR block output k = sum taps[j] x[k*deci+ntaps-1-j]; FFT filter y[k] = sum taps[j] x[k-j] with zero pre-history, hence FIR[k] == FFT[k+ntaps-1]; float variant = real part; IIR recurrences with a running rounding-error bound; QuadDemod = gain*arg(s*conj(prev)), with 0 or +-gain*pi where the product is exactly zero (gated inputs); FastFM's difference formula bit-exactly; Hilbert = (delayed input, FIR of the defining Hilbert taps - computed by the harness: window/n on odd offsets, antisymmetric, unit gain at fs/4 - which fir::hilbert() must also return); low_pass taps symmetric with unit DC gain). Stated tolerance, not tuned per case: |err| <= 64*eps32*sum|t|*max|x| for direct forms, <= 16*eps32*log2(fft_size)*sum|t|*max|x| + 1e-30 for FFT paths; exact output counts. Build variant: {} (the thorough tier also runs a build with -C target-feature=+avx,+sse3 so that the AVX dot product is the one under test). Non-trivial: >= 2 taps and input longer than one FFT block / FIR window with a chunk boundary inside (drip run with > 3 work calls); distinct = hash of the case.",
             variant()
         )
     }
@@ -245,7 +245,27 @@ fn run_block(case: &DripCase, ctx: &mut Ctx) {
         }
         (Hilbert { half, window }, InputData::F32(x)) => {
             let nt = 2 * *half as usize + 1;
-            let h = rustradio::fir::hilbert(&window_of(*window).make_window(nt));
+            // the defining taps, computed here: 1/n on odd offsets n from the centre (negative
+            // before it), zero on even ones, times the window, normalised to unit gain at fs/4
+            let w = window_of(*window).make_window(nt).0;
+            let mid = (nt - 1) / 2;
+            let mut hd = vec![0f64; nt];
+            let mut alt = 0f64; // sum_i (-1)^((i-1)/2) h[mid+i]: half the gain at fs/4
+            for i in (1..=mid).step_by(2) {
+                hd[mid + i] = w[mid + i] as f64 / i as f64;
+                hd[mid - i] = -(w[mid - i] as f64) / i as f64;
+                alt += if (i / 2) % 2 == 0 { hd[mid + i] } else { -hd[mid + i] };
+            }
+            let norm = 1.0 / (2.0 * alt.abs());
+            let h: Vec<f32> = hd.iter().map(|v| if alt == 0.0 { f32::NAN } else { (v * norm) as f32 }).collect();
+            if nt >= 3 && alt != 0.0 {
+                let lib = rustradio::fir::hilbert(&window_of(*window).make_window(nt));
+                let worst = lib.iter().zip(h.iter()).map(|(a, b)| (a - b).abs()).fold(0f32, f32::max);
+                let scale = h.iter().map(|v| v.abs()).fold(0f32, f32::max);
+                if lib.len() != nt || worst > 16.0 * EPS as f32 * scale * nt as f32 {
+                    return fail(ctx, "taps", format!("fir::hilbert() with {nt} taps ({:?} window) differs from the defining taps by {worst:e} (largest tap {scale:e})", window));
+                }
+            }
             let got = from_bits_c(out);
             if got.len() != x.len() {
                 return fail(ctx, "count", format!("{} outputs for {} inputs", got.len(), x.len()));
